@@ -276,6 +276,78 @@ def invert_perm(n, a, b, c, e):
   return True
 
 
+class _ScanLax:
+  """lax.scan on numpy arrays: the documented loop over the leading axis"""
+
+  @staticmethod
+  def scan(f, init, xs, length=None, reverse=False, unroll=1):
+    leaves, td = jax.tree_util.tree_flatten(xs)
+    n = length if length is not None else leaves[0].shape[0]
+    c, ys = init, []
+    for i in (range(n - 1, -1, -1) if reverse else range(n)):
+      c, y = f(c, jax.tree_util.tree_unflatten(td, [l[i] for l in leaves]))
+      ys.append(y)
+    if reverse:
+      ys = ys[::-1]
+    yl = [jax.tree_util.tree_flatten(y) for y in ys]
+    stacked = [_real_np.stack([y[0][j] for y in yl]) for j in range(len(yl[0][0]))]
+    return c, jax.tree_util.tree_unflatten(yl[0][1], stacked)
+
+  def __getattr__(self, name):
+    return getattr(jax.lax, name)
+
+
+SCAN_SHAPE = (2, 3, 4)
+SCAN_AXES = [0, 1, 2, -1, -2, -3]
+
+
+def scan_in_dim_like_loops(na, a0, a1, a2, keepdims, tree):
+  """scan_in_dim == the nested Python loops over the chosen axes IN THE GIVEN ORDER
+  (first axis outermost); ys come back in the layout of xs (scanned axes removed
+  from / kept as size-1 dims in what the body sees)"""
+  axes = tuple(pick(SCAN_AXES, a) for a in (a0, a1, a2)[:na])
+  for a in (a0, a1, a2)[na:]:
+    if a != 0:
+      raise Reject()
+  norm = [a % 3 for a in axes]
+  if len(set(norm)) != len(norm):
+    raise Reject()
+  x = _real_np.arange(24).reshape(SCAN_SHAPE) + 1
+  xs = {'u': x, 'v': x * 100} if tree else x
+  seen = []
+
+  def body(c, xx):
+    arr = xx['u'] if tree else xx
+    seen.append(tuple(arr.shape))
+    s = int(arr.sum()) + (int(xx['v'].sum()) if tree else 0)
+    c2 = c * 7 + s                      # order sensitive
+    return c2, (arr * 2 + (c % 5))
+  saved = JU.lax
+  JU.lax = _ScanLax()
+  try:
+    c, ys = JU.scan_in_dim(body, 1, xs, axis=axes if na != 1 or a0 % 2 else axes[0],
+                           keepdims=bool(keepdims))
+  finally:
+    JU.lax = saved
+  # reference: explicit nested loops
+  ref_c = 1
+  ref_y = _real_np.zeros(SCAN_SHAPE, dtype=x.dtype)
+  rest = [d for d in range(3) if d not in norm]
+  want_seen = tuple(1 if d in norm else SCAN_SHAPE[d] for d in range(3)) if keepdims \
+      else tuple(SCAN_SHAPE[d] for d in rest)
+  for idx in itertools.product(*[range(SCAN_SHAPE[a]) for a in norm]):
+    sl = [slice(None)] * 3
+    for a, i in zip(norm, idx):
+      sl[a] = slice(i, i + 1)
+    blk = x[tuple(sl)]
+    s = int(blk.sum()) + (int(blk.sum()) * 100 if tree else 0)
+    ref_y[tuple(sl)] = blk * 2 + (ref_c % 5)
+    ref_c = ref_c * 7 + s
+  if c != ref_c or any(sh != want_seen for sh in seen):
+    return False
+  return ys.shape == SCAN_SHAPE and bool((ys == ref_y).all())
+
+
 class Rows:
   """row-list stand-in for shard / unreplicate / stack_forest"""
 
@@ -448,6 +520,13 @@ def obligations(tier):
                 'schedules = every sequence of %d symbolic choices at points where '
                 'both threads can run (then alternating)' % (
                     2 if quick else 3, 10 if quick else NCH)),
+      Ob('scan_in_dim_like_loops', scan_in_dim_like_loops,
+         dict(na=I(1, 3), a0=I(0, 5), a1=I(0, 5), a2=I(0, 5), keepdims=B(), tree=B()),
+         split=('na', 'a0'), timeout=300,
+         funcs=qualnames(JU.scan_in_dim, JU._scan_nd, JU._invert_perm),
+         bounds='xs [2,3,4] (array or 2-leaf dict), every tuple of 1..3 distinct axes '
+                'from 0,1,2,-1,-2,-3 in every order, keepdims',
+         assumes=('lax.scan replaced by its documented loop on numpy arrays',)),
       Ob('invert_perm', invert_perm,
          dict(n=I(0, 4), a=I(0, 3), b=I(0, 3), c=I(0, 3), e=I(0, 3)), timeout=300,
          funcs=qualnames(JU._invert_perm), bounds='all permutations of <=4'),
